@@ -10,6 +10,7 @@ import asyncio
 import calendar
 import datetime
 import json
+import math
 import os
 import pathlib
 import stat as stat_mod
@@ -51,8 +52,8 @@ TRUSTED = [
     "time zone in the theorems = fixed offset (local = UTC + off), plus the two-offset corollary C07_ls_date_recent_two_offsets_partial and "
     "C07_ls_date_old_or_future (any client clock); zones with DST are covered by the function-level DST streams only (real build_list_mtime "
     "under TZ=<POSIX rule> in a subprocess around every transition of 2-4 years, three zones incl. the southern hemisphere); localtime/tzdata unverified",
-    "clocks and mtimes are integers in the model (gmtime/localtime floor floats; the comparison now - HALF < mtime <= now "
-    "on fractional values is exercised against the oracle only)",
+    "backend times: MLSx facts are modelled on exact rationals (floor, C07_mlsx_time_real_floor); in the LIST date model clocks and mtimes "
+    "are integers (the comparison now - HALF < mtime <= now on fractional values is exercised against the oracle only)",
 ]
 ASSUMPTIONS = [
     "modelled, not verified: strftime/strptime/localtime/gmtime of the interpreter and glibc on the formats used (validated "
@@ -743,7 +744,7 @@ def correspondence(ctx, budget=None):
     # fractional clocks / mtimes: oracle only (the model is integral)
     nfrac = 0
     for m, n, n2 in rng.sample(cases, min(len(cases), 3000)):
-        fm, fn = m + rng.random(), n + rng.random()
+        fm, fn = m + rng.choice([rng.random(), 0.9999997, 0.5, 0.999, 1e-6]), n + rng.choice([rng.random(), 0.9999997, 0.0])
         if not (fn - SPEC_HALF + DAY < fm <= fn or fm <= fn - SPEC_HALF or fm > fn):
             continue
         s = impl_build_list_mtime(fm, fn)
@@ -906,6 +907,43 @@ def correspondence(ctx, budget=None):
     ctx.count("mlsx:lines rejected with ValueError (no pathname)", nmlsx_err)
     ctx.sample({"stream": "mlsx", "line": lines[0]})
     xcheck += [(21, [l], o) for (l, _), o in list(zip(allp, mo))[:10]]
+
+    # sub-second backend times (floats; a float is an exact rational): the facts are those of the FLOOR
+    FRACS = [0.0, 1e-9, 1e-6, 0.25, 0.4999995, 0.5, 0.5000005, 0.75, 0.999, 0.999999, 0.9999994, 0.9999995, 0.9999996, 0.9999997, 0.99999999]
+    fbases = [ymd(1999, 12, 31, 23, 59, 59), ymd(2024, 2, 29, 23, 59, 59), ymd(2023, 12, 31, 23, 59, 59), ymd(2024, 3, 31, 0, 59, 59),
+              ymd(1970, 1, 1, 0, 0, 0), ymd(2038, 1, 19, 3, 14, 7), ymd(2100, 2, 28, 23, 59, 59), 59, 3599, 86399]
+    fbases += [rng.choice(cases)[0] for _ in range(400 if thorough else 120)]
+    floats = []
+    for b in fbases:
+        if b < 0:
+            continue
+        floats += [b + f for f in FRACS] + [math.nextafter(b + 1, 0), math.nextafter(b, math.inf), float(b)]
+        floats += [b + rng.random() for _ in range(2)]
+    # the model takes the float as the exact rational num/den (the driver's integers are 63 bits wide)
+    floats = [x for x in floats if max(x.as_integer_ratio()) < 2**60]
+    mo = ctx.model([(36, list(x.as_integer_ratio())) for x in floats])
+    nsub = nlast = 0
+    for x, o in zip(floats, mo):
+        ctx.case(("mlsx-time-float", x.hex()))
+        ctx.traces_impl += 1
+        nsub += 1
+        nlast += x - math.floor(x) >= 0.9999995
+        want = fmt14(naive(math.floor(x)), "second")
+        try:
+            got = aioftp.Server._format_mlsx_time(x)
+            line = impl_build_mlsx(server, mkstats(1, x, x, 1, 0), 0, "f")
+            ent = client.parse_mlsx_line(line)[1]
+            got2 = (ent.get("modify"), ent.get("create"))
+        except Exception as e:  # noqa: BLE001 - observation
+            got, got2 = "!" + repr(e)[:80], (None, None)
+        if sx.txt(o) != got:
+            ctx.disagree("_format_mlsx_time/float", x.hex(), sx.txt(o), got)
+        if got != want or got2 != (want, want):
+            ctx.violation(f"MLSx time of the backend time {x!r} ({x.hex()}) is {got} / facts {got2}, but its UTC second is {want} (floor)",
+                          {"key": "c07-mlsx-time-subsecond", "mtime_hex": x.hex(), "mtime": repr(x), "got": got, "facts": list(got2), "expected": want})
+    ctx.count("mlsx:sub-second backend times (floats)", nsub)
+    ctx.count("mlsx:... with fractional part in [0.9999995, 1)", nlast)
+    xcheck += [(36, list(x.as_integer_ratio()), o) for x, o in list(zip(floats, mo))[10:16]]
 
     _t_mark(ctx, "e-list")
     # ---------------- (e) LIST
@@ -1193,6 +1231,18 @@ def wire_level(ctx, tp, thorough):
             ctx.obligation_broken("wire-level:" + part.__name__, traceback.format_exc()[-1200:])
 
 
+# names of the directory that is listed (no leading/trailing whitespace: the client strips the command line - C08's matter)
+DIR_NAMES = ["d", "-old", "-R", "-la", "-1", "-a pub", "--", "-", "a -> b", "Type=dir;", "12:30", ";x", "é٣", "-rw-r--r--", "d.d", "-l -a", "1 none none 5"]
+
+
+def subsecond(rng, sec, now, half):
+    """nanoseconds to add to the whole second `sec` of a backend time: near 0, 1/2 and 1 (the last microsecond included).
+    0 where the integral model and the float comparison of the half-year switch could differ (age exactly 0 or exactly HALF)"""
+    if sec in (now, now - half, now - SPEC_HALF) or sec < 0:
+        return 0
+    return rng.choice([0, 0, 1, 400, 499_999_600, 500_000_000, 500_000_400, 999_000_000, 999_999_400, 999_999_700])
+
+
 def tree_spec(rng, now, n):
     """entries of one directory: (name, kind, size, mtime, perm)"""
     ents, seen = [], set()
@@ -1211,7 +1261,7 @@ def tree_spec(rng, now, n):
     return ents
 
 
-def check_listing(ctx, backend, cmd, truth_list, got, now, now2, what):
+def check_listing(ctx, backend, cmd, truth_list, got, now, now2, what, extra=None):
     """oracle at the wire: each entry exactly once, none invented, exact type/size, time per command.
     truth_list: dicts name/kind/size/mtime/... as the BACKEND has them"""
     names = sorted(e["name"] for e in truth_list)
@@ -1265,8 +1315,8 @@ def check_listing(ctx, backend, cmd, truth_list, got, now, now2, what):
             bad += rb[0]
     if bad:
         ctx.violation(f"{what}: {bad[:3]}",
-                      {"key": "c07-wire-" + cmd.lower(), "backend": backend, "now": now, "client_now": now2,
-                       "entries": truth_list, "got": [[str(p), dict(i)] for p, i in got], "bad": bad[:10]})
+                      dict(extra or {}, key="c07-wire-" + cmd.lower(), backend=backend, now=now, client_now=now2,
+                           entries=truth_list, got=[[str(p), dict(i)] for p, i in got], bad=bad[:10]))
 
 
 def model_listing(ctx, cmd, truth_list, now, now2, H, T):
@@ -1312,19 +1362,23 @@ async def _wire(ctx, tp, rng, thorough, net):
         now = rng.choice([ymd(2024, 3, 1, 0, 0, 30), ymd(2025, 1, 1, 0, 10, 0), ymd(2023, 7, 2, 12, 0, 0), ymd(2100, 3, 1, 5, 0, 0),
                           ymd(2024, 8, 29, 12, 0, 0), ymd(2001, 1, 1, 0, 0, 0), ymd(2024, 2, 29, 23, 59, 30), ymd(2028, 12, 31, 23, 59, 59)]) + rng.choice(DELTAS)
         now2 = now + rng.choice(SKEWS)
+        # the LISTED directory: its name comes from the metacharacter pool too and is passed as a bare relative argument
+        dname = DIR_NAMES[rnd % len(DIR_NAMES)] if rnd < len(DIR_NAMES) or rng.random() < 0.5 else rng.choice(DIR_NAMES)
         st_round = rnd == rounds - 1  # last round: one set-uid entry without x on disk (the F13b witness at the wire; repaired)
         ents = tree_spec(rng, now, rng.choice([0, 1, 7, 12, 25]) if not st_round else 4)
         for backend in ("memory", "pathio", "asyncpathio"):
             tdir = None
             if backend == "memory":
                 root = Node("dir", "/", content=[], ctime=1, mtime=1)
-                d = Node("dir", "d", content=[], ctime=1, mtime=1)
+                d = Node("dir", dname, content=[], ctime=1, mtime=1)
                 root.content.append(d)
+                root.content.append(Node("file", "sibling-of-the-listed-directory", ctime=5, mtime=5, content=io.BytesIO(b"s")))
                 truth = []
                 for name, kind, size, mtime, perm in ents:
                     if mtime == 0:
                         continue  # Node(mtime=0) means "now" (observation in the notes)
-                    d.content.append(Node(kind, name, ctime=mtime - 5, mtime=mtime,
+                    d.content.append(Node(kind, name, ctime=mtime - 5 + subsecond(rng, mtime - 5, now, H) * 1e-9,
+                                          mtime=mtime + subsecond(rng, mtime, now, H) * 1e-9,
                                           content=io.BytesIO(b"x" * size) if kind == "file" else []))
                     truth.append({"name": name, "kind": kind, "size": size if kind == "file" else 0, "mtime": mtime, "ctime": mtime - 5,
                                   "nlink": 1, "mode": (stat_mod.S_IFREG | 0o666) if kind == "file" else (stat_mod.S_IFDIR | 0o777)})
@@ -1333,25 +1387,27 @@ async def _wire(ctx, tp, rng, thorough, net):
             else:
                 tdir = tmp_root / f"c07-{os.getpid()}-{rnd}-{backend}"
                 shutil.rmtree(tdir, ignore_errors=True)
-                (tdir / "d").mkdir(parents=True)
+                (tdir / dname).mkdir(parents=True)
+                (tdir / "sibling-of-the-listed-directory").write_bytes(b"s")
                 truth = []
                 for i, (name, kind, size, mtime, perm) in enumerate(ents):
                     if mtime < 0:
                         continue
-                    p = tdir / "d" / name
+                    p = tdir / dname / name
                     try:
                         if kind == "file":
                             p.write_bytes(b"x" * size)
                         else:
                             p.mkdir()
                         os.chmod(p, perm | (0o4000 if st_round and i == 1 and kind == "file" and not perm & 0o100 else 0))
-                        os.utime(p, (mtime, mtime))
+                        ns = mtime * 10**9 + subsecond(rng, mtime, now, H)
+                        os.utime(p, ns=(ns, ns))
                         st = os.stat(p)
                     except OSError:
                         continue
                     truth.append({"name": name, "kind": kind, "size": st.st_size, "mtime": mtime, "ctime": math.floor(st.st_ctime),
                                   "nlink": st.st_nlink, "mode": st.st_mode})
-                    if int(st.st_mtime) != mtime:
+                    if math.floor(st.st_mtime) != mtime:
                         ctx.notes.append(f"os.utime did not take: {name!r} {st.st_mtime} != {mtime}")
                 factory = aioftp.PathIO if backend == "pathio" else aioftp.AsyncPathIO
                 base = str(tdir)
@@ -1377,9 +1433,15 @@ async def _wire(ctx, tp, rng, thorough, net):
                         ctx.case(("wire", backend, flavour, raw, rnd, now))
                         mm = model_listing(ctx, cmd, truth, now, now2, H, T)
                         try:
-                            got = await client.list("d", raw_command=raw)
-                        except ValueError as e:
+                            got = await client.list(dname, raw_command=raw)
+                        except (ValueError, aioftp.StatusCodeError) as e:
                             got = None
+                            if isinstance(e, aioftp.StatusCodeError):
+                                ctx.violation(f"{what}: listing of the existing directory {dname!r} fails: {e!r}"[:300],
+                                              {"key": "c07-wire-" + cmd.lower(), "backend": backend, "now": now, "client_now": now2,
+                                               "directory": dname, "entries": truth, "error": repr(e)[:300]})
+                                client.close()
+                                continue
                             if mm[:1] != ["err"]:
                                 ctx.disagree("wire:" + what, {"entries": truth, "now": now}, mm, ["err", 1])
                             if has_st and cmd == "LIST":
@@ -1391,7 +1453,8 @@ async def _wire(ctx, tp, rng, thorough, net):
                                                "entries": truth, "error": repr(e)[:300]})
                             client.close()
                             continue
-                        check_listing(ctx, backend, cmd, truth, got, now, now2, what)
+                        check_listing(ctx, backend, cmd, truth, got, now, now2, what + f" of {dname!r}",
+                                      {"directory": dname, "raw_command": raw, "flavour": flavour})
                         im = canon_got(cmd, got)
                         if mm != im:
                             ctx.disagree("wire:" + what, {"entries": truth, "now": now, "client_now": now2}, mm, im)
@@ -1400,7 +1463,7 @@ async def _wire(ctx, tp, rng, thorough, net):
                             for e in truth[:8]:
                                 name = e["name"]
                                 try:
-                                    info = await client.stat("d/" + name)
+                                    info = await client.stat(dname + "/" + name)
                                 except (aioftp.StatusCodeError, ValueError) as ex:
                                     if flavour == "no-mlsx" and name != name.lstrip():
                                         continue  # F13a, already reported by the listing above
@@ -1424,7 +1487,7 @@ async def _wire(ctx, tp, rng, thorough, net):
                                                    "entry": e, "now": now, "client_now": now2, "got": dict(info)})
                             # a name that is not there must be reported missing
                             try:
-                                await client.stat("d/no-such-entry")
+                                await client.stat(dname + "/no-such-entry")
                                 ctx.violation(f"{backend} {flavour} stat() of a missing entry returns facts",
                                               {"key": "c07-wire-stat-invented", "backend": backend, "flavour": flavour})
                             except aioftp.StatusCodeError:
@@ -1757,6 +1820,9 @@ def replay_wire(ctx, tp, key, r):
     if key == "c07-wire-fault-entry-dropped":
         async def main(net):
             await _replay_fault(rc, tp, r)
+    elif key in ("c07-wire-list", "c07-wire-mlsd"):
+        async def main(net):
+            await _replay_listing(rc, tp, r)
     else:
         async def main(net):
             await _replay_interleave(rc, tp, r, net)
@@ -1764,6 +1830,46 @@ def replay_wire(ctx, tp, key, r):
     for what, _ in rc.hits:
         print(what)
     return not rc.hits
+
+
+async def _replay_listing(rc, tp, r):
+    """one recorded listing session again, on the in-memory backend: directory name, entries, command, clocks"""
+    import io
+
+    import aioftp
+    from aioftp.pathio import Node
+
+    tp.now = r["now"]
+    set_client_now(naive(r["client_now"]))
+    dname = r["directory"]
+    root = Node("dir", "/", content=[], ctime=1, mtime=1)
+    d = Node("dir", dname, content=[], ctime=1, mtime=1)
+    root.content += [d, Node("file", "sibling-of-the-listed-directory", ctime=5, mtime=5, content=io.BytesIO(b"s"))]
+    truth = []
+    for e in r["entries"]:
+        kind = e["kind"]
+        size = e["size"] if kind == "file" else 0
+        d.content.append(Node(kind, e["name"], ctime=e["ctime"], mtime=e["mtime"], content=io.BytesIO(b"x" * size) if kind == "file" else []))
+        truth.append(dict(e, size=size, nlink=1, mode=(stat_mod.S_IFREG | 0o666) if kind == "file" else (stat_mod.S_IFDIR | 0o777)))
+    server = aioftp.Server([aioftp.User(base_path="/", home_path="/")], path_io_factory=lambda *a, state=None, **kw: aioftp.MemoryPathIO(*a, state=[root], **kw))
+    if r.get("flavour") == "no-mlsx":
+        del server.commands_mapping["mlsd"], server.commands_mapping["mlst"]
+    await server.start("127.0.0.1", 0)
+    client = aioftp.Client()
+    cmd = r["raw_command"] or "LIST"
+    try:
+        await client.connect("127.0.0.1", server.server.sockets[0].getsockname()[1])
+        await client.login()
+        got = await client.list(dname, raw_command=r["raw_command"])
+        print(f"list({dname!r}, raw_command={r['raw_command']!r}) ->", sorted(str(p_) for p_, _ in got))
+        check_listing(rc, "memory", cmd, truth, got, r["now"], r["client_now"], "replay")
+        rc.hits = [h for h in rc.hits if h[1].get("key") != "c07-list-name-leading-whitespace"]  # the listed finding F13a is not this replay's subject
+    except Exception as e:  # noqa: BLE001
+        print("listing failed:", repr(e)[:200])
+        rc.violation("listing failed: " + repr(e)[:200], r)
+    finally:
+        client.close()
+        await server.close()
 
 
 async def _replay_fault(rc, tp, r):
@@ -1831,7 +1937,7 @@ def replay(ctx, data):
         want, region = date_oracle(int(r["mtime"] // 1), r["now"], r["client_now"], r.get("off", 0))
         print(f"formatted {s!r} parsed {got} expected {want} ({region}); recorded zone {r.get('zone', 'utc')}")
         return want is None or got == want
-    if key in ("c07-wire-fault-entry-dropped", "c07-wire-interleave-wrong-directory"):
+    if key in ("c07-wire-fault-entry-dropped", "c07-wire-interleave-wrong-directory") or (key in ("c07-wire-list", "c07-wire-mlsd") and "directory" in r):
         return replay_wire(ctx, tp, key, r)
     if key == "c07-ls-date-dst":
         o = run_tz_worker(r["zone"], [[r["mtime"], r["now"], r["client_now"]]])[0]
@@ -1856,6 +1962,11 @@ def replay(ctx, data):
             return False
         print("line:", repr(line), "->", str(p), dict(entry))
         return str(p) == r["name"] and (not r["exists"] or (entry.get("size") == str(r["size"]) and entry.get("modify") == fmt14(naive(r["mtime"]), "second")))
+    if key == "c07-mlsx-time-subsecond":
+        x = float.fromhex(r["mtime_hex"])
+        got = aioftp.Server._format_mlsx_time(x)
+        print(f"_format_mlsx_time({x!r}) -> {got}; UTC second (floor) {r['expected']}")
+        return got == r["expected"]
     if key == "c07-mlsx-time":
         got = run_tz_worker(r.get("zone", "UTC"), [[r["mtime"], r["mtime"]]])[0][1]
         print("under TZ", r.get("zone"), "_format_mlsx_time ->", got)
